@@ -28,3 +28,6 @@ RULE = ("harness/src/bin/wrappers.rs: chained REAL wrapper circuits: M private w
 def nontrivial(case, model_out):
     a = case.segs.split(";")[0].split()
     return int(a[0], 16) * int(a[1], 16) >= 2
+
+# fids whose cases apply hint overrides addressed by (generator kind, occurrence) - see runner.default_judge
+OVERRIDE_FIDS = {"602", "1202"}
